@@ -1330,7 +1330,11 @@ def _apply(ctx, solver, model, cls, op, tags, opi):
             kw["F"] = wrap([f.copy() for f in F])
         explicit = None
         if mode == "full_F":
-            explicit = [F[k] * np.sqrt(P_eff[k]) for k in range(K)]
+            # (every other case: a precoder that backs off from the budget)
+            back = op["factor"] if op["fseed"] % 2 == 0 else 1.0
+            explicit = [F[k] * np.sqrt(P_eff[k] * back) for k in range(K)]
+            if back != 1.0:
+                ctx.label("set_precoders:full_F_below_budget")
         elif mode == "both":
             explicit = [F[k] * np.sqrt(P_eff[k] * op["factor"])
                         for k in range(K)]
